@@ -66,7 +66,14 @@ def skipped_dialects():
 def compile_program(run, prog, kind, cache):
     be = cache.get(kind) or drive.Backend(kind)
     cache[kind] = be
-    rr = drive.RealRun(prog, be)
+    if "aligned" in prog.get("meta", {}):
+        # eval_aligned form: the foreign columns live in a Polars table / in Series
+        from .. import aligned
+
+        cache["pol"] = cache.get("pol") or drive.Backend("pol")
+        rr = aligned.AlignedRun(prog, be, run.counters, u_backend=cache["pol"])
+    else:
+        rr = drive.RealRun(prog, be)
     with M.SQL.setup():
         rr.setup_tables()
     ok = {t["handle"] for t in prog["tables"]}
@@ -426,6 +433,15 @@ def execute(run, prop, shard):
             try:
                 corp.append((("subq_edges", j), gen.gen_subq_edges(pipeline.case_seed(run.seed + 17, run.tier, 0, j))))
             except Exception:
+                run.counters["generator_failures"] += 1
+        # eval_aligned forms (values of a Polars table / Series inside an expression over a SQL table): accepted by the
+        # verbs, so build_query has to answer with a statement or NotSupportedError
+        from .. import aligned
+
+        for j in range(40 if run.tier == "quick" else 250):
+            try:
+                corp.append((("aligned", j), aligned.gen_aligned(pipeline.case_seed(run.seed + 19, run.tier, 0, j))))
+            except Exception:  # noqa: BLE001
                 run.counters["generator_failures"] += 1
         for tag, prog in corp:
             run.case(prog, shape=("corpus",) + tuple(map(str, tag)))
